@@ -41,6 +41,9 @@ CHECKS = {
     "C01": ("value-edge must-cross path rules over the transaction loop (loop/exit-edge analysis on MIR CFG) + receiver provenance + type/ownership facts from the type checker",
             "All-paths structural decision over the type-checked MIR of Client::handle: from every server round trip inside the transaction loop, every exit edge of the loop that leads to the release path is reached only across in_transaction()==false, across in_copy_mode()==false where the reply may open a COPY, and across transaction_mode==true (session mode keeps the server); every Server method / helper in handle operates on the connection of this iteration's single checkout; Server is not Clone, no field/static stores a PooledConnection or shared Server, bb8 checkouts occur only at the three known sites, no owned checkouts or forgets, Server values are built only by Server::startup.",
             "That bb8 hands a connection to one borrower at a time is trusted; interleavings are not decided; the clause 'every result was produced for its own statement' additionally rests on C02 (nothing unread on a connection that changes hands) and C03. " + TRUST, "DESIGN.md §4 C01"),
+    "C18": ("pairing (must-pass-through) of register/disconnect over all normal exits + who-may-write on the registries (statics resolved) + operation-kind restriction on atomic counters enumerated from MIR + loop-exit path rules for transaction counting",
+            "All-sites/all-paths structural decision over the type-checked MIR: the client is registered once; every Ok return of handle after registration passes ClientStats::disconnect and every Err result of handle is disconnected by client_entrypoint; CLIENT_STATS/SERVER_STATS are inserted/removed only by the Reporter's four functions; server stats are registered only in ServerPool::connect, removed on failed startup and in Drop for Server; successful checkouts mark server and client active, failed ones put the client back to idle, waiting precedes the checkout; connected_to_server is cleared only after ServerStats::idle and Drop for Client marks a still-assigned server idle; every atomic mutation in the stats module is classified and totals are touched only by fetch_add/fetch_max; every release after a round trip counts one transaction on client and server and send_and_receive_loop counts one query outside its receive loop.",
+            "Equality of totals with server-side counts and unwinding exits are not decided. " + TRUST, "DESIGN.md §4 C18"),
 }
 
 NOT_APPLICABLE = {}
